@@ -103,6 +103,12 @@ DeferredRuleFails(ev) ==
     \cup (IF empty /\ ev.parse.cls = "ret" /\ ev.mass.cls = "ret" /\ ev.massUnchanged
           THEN {"global_rule_without_a_modification_silently_ignored"} ELSE {})
     \cup (IF ~empty /\ SemSum(r.mods).ok /\ ev.parse.cls = "ret" /\ ev.mass.cls # "ret" THEN {"valid_global_rule_rejected"} ELSE {})
+    (* a rule that reaches the peptide with a modification nobody can weigh: mass and composition are refused *)
+    \cup (IF ~empty /\ ~SemSum(r.mods).ok /\ ev.parse.cls = "ret"
+             /\ (\E q \in 1..Len(r.targets) : r.targets[q] \in {"N-Term", "C-Term"} \/ r.targets[q] \in {"P", "E", "M", "T", "I", "D"})
+          THEN (IF ev.mass.cls = "ret" THEN {"unresolvable_rule_silently_ignored_by_mass"} ELSE {})
+               \cup (IF ev.comp.cls = "ret" THEN {"unresolvable_rule_silently_ignored_by_composition"} ELSE {})
+          ELSE {})
     (* whether the rule reaches any residue of the peptide is one fact: mass and composition cannot disagree about it *)
     \cup (IF ev.mass.cls = "ret" /\ ev.comp.cls = "ret" /\ ev.massUnchanged # ev.compUnchanged
           THEN {"mass_and_composition_disagree_whether_the_rule_applies"} ELSE {})
